@@ -159,3 +159,28 @@ for _pid, _cfg in PROPS.items():
     mods, thms = THEOREMS.get(_pid, (["BS.Props.C01"], CORE_READER))
     _cfg["lean_modules"] = mods
     _cfg["theorems"] = thms
+
+LEVEL_TEXT = {
+ "C01": "Kernel-checked for every payload size, every valid history (strictly increasing timestamps < 2^64, arbitrary payload bytes) and every buffer size: the buffered reader with carry-over equals a single pass (T3), scanning what the writer emits feeds the processor exactly the appended entries (T1), push_data keeps the files canonical (T2), and under the session invariant read_all(..) returns exactly the history (read_all_returns_history). The tie to the Rust code is the differential check (sparse/dense series over several 16 KiB buffers for every payload class, marker-like bytes, timestamps up to 2^64-1).",
+ "C02": "Kernel-checked at full strength on the model: for EVERY pair of bounds (inclusive/exclusive/unbounded, anywhere relative to the data, in gaps, at delta edges) read_all(range) under the session invariant returns exactly the entries inside the bounds, or an empty result / range error when there are none (range_read_exact, seek_exact with start_side/end_side). Differential: every critical value as one-sided bound of each kind plus random pairs, on histories with gaps and delta edges.",
+ "C03": "Kernel-checked on the model: push_line accepts iff the payload has the configured length and the timestamp is strictly newer (or the series is empty); a refusal returns the old directory and no new session; an acceptance re-establishes the session invariant, so the rule persists (accept_iff_strictly_newer). Reopen/repair persistence follows from C04/C05's open theorems at the data level. Differential: refused appends of every kind, several in a row, across reopens, with files/range/len/read_all compared after each.",
+ "C04": "Kernel-checked on the model: reopening an intact series with the index file in any legitimate prior state succeeds, leaves the data file byte-identical and re-establishes the data invariant (reopen_preserves); last_meta_timestamp terminates, never panics and is exact for every line size (last_meta_timestamp_exact, window_larger_than_overlap). Hypothesis TailClean (no marker-like raw timestamp line; empty for payload >= 4) is the recorded known finding marker-tail; the header round trip (T10) and the session-level composition are differential only.",
+ "C05": "Kernel-checked on the model: data region cut at ANY byte length x index file in ANY legitimate prior state (absent, cut at any byte, lagging, ahead, shorter than its header): Data::open_existing succeeds and yields the canonical files and exact in-memory state of the completely written prefix (open_recovers_written_prefix, repair_yields_written_prefix; unconditional for payload >= 4). For payload < 4 the hypothesis TailClean is needed \u2014 proved necessary by tailClean_needed_counterexample and recorded as known finding marker-tail. Differential: cut-point enumeration x index states incl. stale .part, large files, crash-repair-append chains.",
+ "C06": "Kernel-checked on the model: the incrementally maintained index (file bytes and entries) is exactly the section list of the data after every accepted append; an index rebuilt from the data is identical to it for every file length and chunk size; no legitimate prior state of the index file influences the result of an open (incremental_index_exact, rebuild_equals_incremental, rebuilt_file_bytes, prior_index_state_irrelevant, chunk_size_irrelevant). Differential incl. the window-sweep battery for the backwards last-timestamp search.",
+ "C07": "Kernel-checked: the independent reference decoder of Spec.lean (knows only the documented layout, shares no definition with the model) decodes every canonical data region to exactly what was appended; meta::write is byte-for-byte the documented section layout and meta::read inverts it for all five layouts; the library's reader reads every canonical region (reference_decoder_reads_canonical, section_layout_is_documented, section_roundtrip, reader_reads_canonical). The outer/inner header text (T10) is differential only: every file the library writes is compared byte-for-byte with the Lean spec encoder's file.",
+ "C08": "Partly kernel-checked: the bucket accumulator of the resampling processor emits exactly the bucket means without overflow (C10's sampler theorem, same arithmetic as DownSampledData::process), push_data keeps a cache file canonical (T2), the reader feeding a cache created over existing data is exact (T1/T3). The cache invariant across process/create (T13) is NOT proved; that every cache file equals header ++ encode(bucketMeans B history) for every level is carried by the differential check (caches attached at creation, created on first open, large magnitudes, sources spanning buffers).",
+ "C09": "Differential only for the cache-specific part (reopen at every fill level for B in {1,2,3,4,10}, cache torn at sampled bytes, deleted, source torn with the cache ahead), compared byte-for-byte with the spec's cache file; kernel-checked support: the open of a cache's own data/index files is the same Data::open_existing as C04/C05, and the replay reader is T1/T3. The cache catch-up invariant (T13) is not proved.",
+ "C10": "Kernel-checked on the model: read_n without caches, for EVERY pair of bounds and n >= 1 (files up to 2^32 lines): uniform bucket means with one bucket size b >= 1 of exactly the lines a full read of the range returns, at most 2n of them, no overflow (read_n_of_any_range, sampler_is_bucket_means, at_most_2n). The resampler is the harness's integer resampler over the library's own u64 ResampleState; the generic resampler contract is an assumption.",
+ "C11": "Kernel-checked: estimate_lines cannot fault and its unreachable! arm is unreachable for any index contents (estimate_total, unreachable_arm); the read tail after level selection is C10's. That the selected level is one of the stored levels is by construction of read_n; transparency w.r.t. the decoded cache content, strictly increasing in-bounds timestamps and <= 2n are checked differentially against every stored level (judge ~readnc), incl. caches longer in bytes than finer ones.",
+ "C12": "Kernel-checked on the model under the session invariant: len() = number of accepted lines, range() = first/last timestamp, last time = last line's timestamp, payload size constant; byte-size formula (len_is_count, range_is_first_last, size_formula). After repair / rebuild the invariant is re-established by C04/C05's open theorems (data level). last_line() through the API and is_empty are differential.",
+ "C13": "Kernel-checked on the model: read_first_n(n >= 1, range) for EVERY pair of bounds returns the first min(n,k) of the k entries read_all(range) returns (first_n_of_any_range, processor_takes_prefix). The paging loop (visits every line once) is differential only (page op for page sizes 1..len+1).",
+ "C14": "Kernel-checked on the model for EVERY pair of bounds: n_lines_between is 0 / a range error iff no entry is in range, else k + lines_per_metainfo * m with m <= k sections opened by entries in range (count_consistent, range_bytes).",
+ "C15": "Kernel-checked: push_data keeps data file = header ++ encode(history) where encode opens a section for the first line and iff the distance to the last full timestamp exceeds 65534 \u2014 a pure function of header and accepted lines; size formula; after any open the file is again canonical (C04/C05) (push_keeps_canonical, size_formula, section_rule).",
+ "C16": "Kernel-checked for the write path: push_data and the cache's process only append to data and index files (pushData_appends, cacheProcess_appends). That reads/counts/accessors never write is true of the model by construction (pure functions) and is carried by the differential file audit: bsrun snapshots every file before and after every call and the change class (same/append/other) is compared with the model's and with the rule.",
+ "C17": "Differential only for the create/open contract (header lengths around the 16-bit limit for three payload sizes, binary headers containing the parser's own patterns, every builder option combination, stale sidecar files, directory listing before/after); the header text round trip (T10) is not proved. Supporting kernel-checked facts: none specific. One known finding (stale-cache-create).",
+ "C18": "Kernel-checked on the model of read_with_processor, for every processor and every content around the damage: without consent the read stops with CorruptMetaSection exactly at the damaged section; with consent every line up to the next intact section is dropped without reaching the processor and reading resumes after that section with its timestamp (no_consent_is_error, skipping_drops, consent_resumes_at_next_section). Differential incl. damaged sections longer than one and two read buffers.",
+ "C19": "By-products, kernel-checked on the model: no panic/never-ending loop in last_meta_timestamp (C04), estimate_lines (C11), the seek for every pair of bounds (C02: the result is a value or a range error, never .panic), the reader on canonical data (C01), push_line (C03); n = 0 returns nothing by definition of the model. Not a single all-operations theorem: apiOpen/header parsing and caches are differential only (extreme-argument cross product with a panic hook and a watchdog per script). Known finding marker-tail applies."
+}
+
+for _pid, _cfg in PROPS.items():
+    _cfg["level_text"] = LEVEL_TEXT.get(_pid, "")
